@@ -302,6 +302,10 @@ class LoopFn:
                 if y.get("kind") == "DeclRefExpr" and y["referencedDecl"].get("name") in self.cfg.get("globals", {}) and \
                         self.ident(y["referencedDecl"]["name"]) not in self.vars:
                     return k(self.cfg["globals"][y["referencedDecl"]["name"]])
+                if y.get("kind") == "ConditionalOperator":      # c ? a : b on two lvalues, read at once: the value of the chosen one
+                    c, a, b = self.inner(y)
+                    lv2rv = lambda z: {"kind": "ImplicitCastExpr", "castKind": "LValueToRValue", "type": z.get("type"), "inner": [z]}
+                    return self.E(c, lambda vc: ite(vc, lambda: self.E(lv2rv(a), k), lambda: self.E(lv2rv(b), k)))
                 return self.L(x, lambda lv: self.rvalue(lv, k))
             if ck in ("NoOp", "BitCast"):
                 return self.E(x, k)
